@@ -40,6 +40,9 @@ def app_case(rng, scripts, nctx, nents, with_blocker, L):
                 conds = [c_script('KExplicit', sc)]
                 if with_blocker:
                     conds.append(c_script('(KBlocker true)', [rng.choice(['SFired', 'SFired', 'SNone']) for _ in range(L)]))
+                if rng.random() < 0.4:
+                    # a plain blocker: when it fails the state drops to None and the terminal event must still be delivered
+                    conds.append(c_script('(KBlocker false)', [rng.choice(['SFired', 'SFired', 'SFired', 'SNone']) for _ in range(L)]))
                 acts.append(action(ids, a, [], mods, conds))
             return spec(acts)
         if ctx_shared(c):
@@ -85,7 +88,7 @@ STAGES = [dict(name='data', mode='unit', coq='Check.C01u', cases=unit_cases, non
           dict(name='frames', mode='app', coq='Check.C01c', cases=app_cases, nontrivial=nontrivial, shard=25,
                exhaustive={'thorough': True, 'quick': True},
                rule='real App: 1-3 context types (exclusive and shared), 1-3 entities, actions of all four output types, each driven by a scripted explicit condition, '
-                    'a scripted modifier producing values of arbitrary dimension, optionally a scripted events-only blocker; every state script over {None,Ongoing,Fired} of length '
+                    'a scripted modifier producing values of arbitrary dimension, optionally a scripted events-only blocker and a scripted plain blocker; every state script over {None,Ongoing,Fired} of length '
                     '<= 3 (quick) / <= 5 (thorough) drives some action, plus sticky random scripts of 5..30 frames; non-trivial = an episode starts; distinct = distinct scenario text')]
 
 CLAUSES = {1: 'events of a frame are not the transition table of (previous polled state, polled state), Started first, one per holder, payload = polled data (or delivered although events-blocked)',
